@@ -102,10 +102,21 @@ func (b *Broker) doHeartBeat(ctx context.Context, id string) {
 		}
 		return newValue
 	})
-	ctx, cancel := context.WithTimeout(ctx, b.HeartBeat)
+	if b.responders.Has(id) {
+		// this goroutine started late: the subscriber's next poll is already
+		// waiting (it found no signal to cancel yet), so it is not silent
+		if signal, ok := b.signals.Pop(id); ok {
+			close(signal.(chan bool))
+		}
+		return
+	}
+	// the heartbeat measures the subscriber's silence: it must not end with the
+	// request that triggered the delivery (a publisher's call, whose context is
+	// cancelled when that call is over)
+	timer, cancel := context.WithTimeout(context.Background(), b.HeartBeat)
 	defer cancel()
 	select {
-	case <-ctx.Done():
+	case <-timer.Done():
 		if topics, ok := b.messages.Load(id); ok {
 			topics := topics.(*sync.Map)
 			topics.Range(func(key, value interface{}) bool {
@@ -189,6 +200,11 @@ func (b *Broker) message(ctx context.Context) map[string][]Message {
 			}
 			return newValue
 		})
+		// a heartbeat registered since the signal was looked for above belongs
+		// to the answer before this poll: the subscriber is here, cancel it
+		if signal, ok := b.signals.Pop(id); ok {
+			close(signal.(chan bool))
+		}
 		if b.Timeout > 0 {
 			for {
 				timeoutCtx, cancel := context.WithTimeout(ctx, b.Timeout)
